@@ -137,7 +137,16 @@ def se3s(draw, maxnorm=1e3, ang=None):
     if kind == "identity":
         R = np.eye(3)
     elif kind == "halfturn":
-        n = draw(unit_vectors())
+        if draw(st.booleans()):
+            n = draw(unit_vectors())
+        else:
+            # axes with small-integer direction ratios: the rounded trace of 2nn^T - I then lands on -1, one or two
+            # ulps above AND below it (random float axes hardly ever give two ulps below), i.e. on either side of every
+            # "trace <= -1" branch decision
+            v = np.array([draw(st.integers(-9, 9)) for _ in range(3)], dtype=float)
+            if not np.any(v):
+                v = np.array([7.0, 6.0, 3.0])
+            n = v / np.linalg.norm(v)
         R = 2 * np.outer(n, n) - np.eye(3)
     elif kind == "quat":
         q = np.array([draw(floats(-1, 1)) for _ in range(4)])
